@@ -16,10 +16,14 @@ const P_TEMPLATES: &str = "template<typename T, typename U> T pick(T a, U b) { r
 const P_ERR_A: &str = "namespace A { int v; }\nnamespace B { int v; }\nvoid f() { int x = A::v + B::w; }\n";
 const P_ERR_B: &str = "struct S { int a; };\nS g; Texture2D<float4> t;\nvoid f() { float3 v = g; t.Nope(); }\n";
 
+// several buffer element types whose HLSL and Metal layouts differ: with layout validation on, which one is reported
+// must not depend on the order of a hash container
+const P_LAYOUT: &str = "struct Particle { float3 position; float life; float3 velocity; };\nstruct Light { float3 direction; };\nstruct Probe { float3 a; float b; };\nstruct Cell { float2 uv; float3 n; };\nstruct Edge { float3 from; float3 to; uint id; };\nStructuredBuffer<Particle> g_particles;\nStructuredBuffer<Light> g_lights;\nStructuredBuffer<Probe> g_probes;\nRWStructuredBuffer<Cell> g_cells;\nStructuredBuffer<Edge> g_edges;\nRWByteAddressBuffer g_out;\n[numthreads(1, 1, 1)] void CSMAIN(uint3 id : SV_DispatchThreadID) { Cell c; c.uv = float2(0, 0); c.n = g_lights[id.x].direction + g_probes[id.x].a + g_edges[id.x].to; g_cells[id.x] = c; g_out.Store(0, asuint(g_particles[id.x].life)); }\nPipeline Main { ComputeShader = CSMAIN; }\n";
+
 fn sources() -> Vec<(String, String)> {
     let mut v: Vec<(String, String)> = vec![
         ("names".into(), P_NAMES.into()), ("groups".into(), P_GROUPS.into()), ("globals".into(), P_GLOBALS.into()),
-        ("templates".into(), P_TEMPLATES.into()), ("err-a".into(), P_ERR_A.into()), ("err-b".into(), P_ERR_B.into()),
+        ("templates".into(), P_TEMPLATES.into()), ("err-a".into(), P_ERR_A.into()), ("err-b".into(), P_ERR_B.into()), ("layout".into(), P_LAYOUT.into()),
     ];
     let root = std::env::var("RSSL_REPO").unwrap_or("/repo".into());
     for dir in ["tests/basic", "hlsl/tests", "msl/tests"] {
@@ -45,7 +49,9 @@ fn fnv(s: &str) -> u64 {
 /// everything compile() returns, as text
 pub fn observe(name: &str, target: &str, nopipe: bool) -> String {
     let src = match sources().into_iter().find(|(n, _)| n == name) { Some((_, s)) => s, None => return "NO-SUCH-PROGRAM".into() };
-    let o = compile_src(&[("main.rssl", &src)], "main.rssl", target, nopipe, false, None, &[]);
+    // a target written `<target>+L` turns the layout consistency validation on
+    let (target, layout) = match target.strip_suffix("+L") { Some(t) => (t, true), None => (target, false) };
+    let o = compile_src(&[("main.rssl", &src)], "main.rssl", target, nopipe, layout, None, &[]);
     let mut s = format!("{}\n{}\n", o.kind, o.text);
     for p in &o.pipelines {
         let stages: Vec<String> = p.stages.iter().map(|st| format!("{:?}/{}/{:?}", st.stage, st.entry_point, st.thread_group_size)).collect();
@@ -97,6 +103,9 @@ pub fn gen_cases(_seed: u64, _n: usize, thorough: bool) -> Vec<String> {
                 if !thorough && name.starts_with("file:") && target == "HlslForVulkan+BA" { continue; }
                 out.push(format!("D {} {} {}", name, target, nopipe));
             }
+        }
+        if !name.starts_with("file:") || thorough {
+            for target in ["HlslForDirectX+L", "Msl+L"] { out.push(format!("D {} {} 0", name, target)); }
         }
     }
     out
